@@ -405,6 +405,7 @@ type c02Case struct {
 	optNames []string
 	behs     []*Beh
 	tr       *Trace
+	effDup   bool // AllowDuplicateNames as given by the case's own options
 	multiMap bool // some map with >= 2 entries is reachable (iteration order is random)
 	counters bool // some behaviour depends on how many calls came before it
 	userCode bool
@@ -415,13 +416,16 @@ type c02Gen struct {
 	r    *rand.Rand
 	cs   *c02Case
 	hits map[string]int64
-	big  bool   // currently generating fields of a big struct: keep them small
-	pos  string // where the value being generated sits (top, field, elem, mapkey, mapval, pointer, interface, …)
+	big  bool    // currently generating fields of a big struct: keep them small
+	adv  float64 // adversity of this case: every adversarial choice is only taken with this probability (else its benign variant), so
+	// that programs with ONE fault and an otherwise well-behaved rest are common (an error elsewhere would mask the fault)
+	pos string // where the value being generated sits (top, field, elem, mapkey, mapval, pointer, interface, …)
 }
 
 func (g *c02Gen) n(k int) int      { return g.r.IntN(k) }
 func (g *c02Gen) p(x float64) bool { return g.r.Float64() < x }
 func (g *c02Gen) hit(s string)     { g.hits[s]++ }
+func (g *c02Gen) calm() bool       { return g.adv < 1 && g.r.Float64() >= g.adv }
 func (g *c02Gen) kind(s string) {
 	g.hits["kind:"+s]++
 	if strings.HasPrefix(s, "user:") {
@@ -443,10 +447,17 @@ var (
 	c02JSONBad = []string{``, ` `, `1 2`, `{"a":`, `{"a":1`, `[1,2`, `"\xff"`, `{"\xff":1}`, `{"a":1,"a":2}`, `{"a":1,"a":2}`, `[{"x":{"k":1,"k":2}}]`,
 		`nul`, `tru`, `fals`, `nullx`, `{a:1}`, `[1,]`, `{"a":1,}`, `01`, `"unterminated`, `"\ud800"`, `"\udc00\ud800"`, "\"\x01\"", `{1:2}`, "\xef\xbb\xbf1", "\x00",
 		`1e999x`, `-`, `.5`, `1.`, `0x10`, `+1`, `NaN`, `Infinity`, `-Infinity`, `'a'`, `[1 2]`, `{"a" 1}`, `{"a":1 "b":2}`, `]`, `}`, `,`, `:`, `"\q"`, `"\u12"`, `[}`, `{]`,
-		`{"a":{"b":{"c":1,"c":2}}}`, `["\xc0\x80"]`, `{"k":"\xed\xa0\x80"}`, `1,2`, `[1],[2]`, `{}{}`, `//c` + "\n1", `/*c*/1`}
+		`{"a":{"b":{"c":1,"c":2}}}`, `["\xc0\x80"]`, "{\"a\":[\"\xff\"]}", `"\udc00"`, `{"\ud800":1}`, "[{\"k\":\"\xc3\"}]", "\"ok\xf0\x9f\"", `"\ud83d"`, "{\"\xe2\x82\":null}", `{"k":"\xed\xa0\x80"}`, `1,2`, `[1],[2]`, `{}{}`, `//c` + "\n1", `/*c*/1`}
 	c02Formats = []string{"base64", "base64url", "base32", "base32hex", "base16", "hex", "array", "emitnull", "emitempty", "nonfinite", "RFC3339", "RFC3339Nano", "RFC1123",
 		"unix", "unixmilli", "unixmicro", "unixnano", "sec", "milli", "micro", "nano", "units", "iso8601", "base60", "'2006-01-02'", `'x"y\\z'`, "'\xff'", "bogus", "DateOnly", "Kitchen"}
-	c02TagNames = []string{"a", "b", "A", "a", "x y", "<&>", "日本", " ", `'\"'`, `'\\'`, `'a,b'`, `'-'`, "-", `''`, "\xff", "\xfe", `'\x00'`, "e1", "u1", "k", "dflt", "ａ", "ſ", "K"}
+	// formats by the kind of Go value they apply to ("strings that reach the output through a non-string Go value")
+	c02TimeFormats = []string{"RFC1123", "RFC822", "RFC850", "UnixDate", "RFC1123", "RFC822", "RFC850", "UnixDate", "'(MST)'", "'Mon Jan _2 15:04:05 MST 2006'", "ANSIC", "UnixDate", "RubyDate", "RFC822", "RFC822Z", "RFC850", "RFC1123", "RFC1123Z", "RFC3339", "RFC3339Nano", "Kitchen", "Stamp", "StampMilli",
+		"StampMicro", "StampNano", "DateTime", "DateOnly", "TimeOnly", "Layout", "unix", "unixmilli", "unixmicro", "unixnano",
+		"'Mon Jan _2 15:04:05 MST 2006'", "'MST!'", "'2006 MST -0700 Z07:00'", `'x"y\\z MST'`, "'\xff MST'", `'\x01\t MST'`, "'<&> MST 日本'", "'2006-01-02'", "bogus", "''"}
+	c02DurFormats   = []string{"sec", "milli", "micro", "nano", "units", "iso8601", "base60", "bogus", "RFC3339"}
+	c02BytesFormats = []string{"base64", "base64url", "base32", "base32hex", "base16", "hex", "array", "bogus", "emitnull"}
+	c02ZoneNames    = []string{`X"Y`, `X\Y`, "X\x01Y", "\xff", `","z":"`, "<&>", "日本", "", "\u2028", "MST", strings.Repeat("Z", 300), "a\xc0\xafb", "\"", "\\"}
+	c02TagNames     = []string{"a", "b", "A", "a", "x y", "<&>", "日本", " ", `'\"'`, `'\\'`, `'a,b'`, `'-'`, "-", `''`, "\xff", "\xfe", `'\x00'`, "e1", "u1", "k", "dflt", "ａ", "ſ", "K"}
 )
 
 var c02MutBytes = []byte("{}[],:\"\\ \xff0e-.")
@@ -477,7 +488,11 @@ func c02Big(s string) []byte { // "a huge value"
 }
 
 func (g *c02Gen) jsonBytes() ([]byte, string) {
-	switch x := g.n(100); {
+	x := g.n(100)
+	if g.calm() {
+		x = g.n(48)
+	}
+	switch {
 	case x < 40:
 		return []byte(c02JSONGood[g.n(len(c02JSONGood))]), "valid"
 	case x < 48:
@@ -512,37 +527,41 @@ func (g *c02Gen) jsonBytes() ([]byte, string) {
 
 func (g *c02Gen) script() []Op {
 	var ops []Op
-	switch x := g.n(100); {
-	case x < 22: // exactly one value
+	x := g.n(100)
+	if g.calm() {
+		x = 0
+	}
+	switch {
+	case x < 20: // exactly one value
 		ops = append(ops, Op{Kind: opOneValue, Arg: g.n(6)})
 		g.hit("script:one-value")
-	case x < 28: // zero values
+	case x < 25: // zero values
 		g.hit("script:zero-values")
-	case x < 36: // two values
+	case x < 32: // two values
 		ops = append(ops, Op{Kind: opOneValue, Arg: g.n(6)}, Op{Kind: opOneValue, Arg: g.n(6)})
 		g.hit("script:two-values")
-	case x < 44: // unclosed container
+	case x < 39: // unclosed container
 		ops = append(ops, Op{Kind: opTok, Arg: []int{tokBeginObject, tokBeginArray}[g.n(2)]})
 		if g.p(0.5) {
 			ops = append(ops, Op{Kind: opName}, Op{Kind: opOneValue, Arg: g.n(2)})
 		}
 		g.hit("script:unclosed")
-	case x < 50: // one container closed too many
+	case x < 44: // one container closed too many
 		ops = append(ops, Op{Kind: opOneValue, Arg: g.n(6)}, Op{Kind: opTok, Arg: []int{tokEndObject, tokEndArray}[g.n(2)]})
 		g.hit("script:extra-close")
-	case x < 55: // a name without a value
+	case x < 48: // a name without a value
 		ops = append(ops, Op{Kind: opTok, Arg: tokBeginObject}, Op{Kind: opName}, Op{Kind: opTok, Arg: tokEndObject})
 		g.hit("script:name-without-value")
-	case x < 59: // the container escape
+	case x < 52: // the container escape
 		ops = append(ops, Op{Kind: opEscape})
 		g.hit("script:escape")
-	case x < 61: // … through several levels
+	case x < 54: // … through several levels
 		ops = append(ops, Op{Kind: opDeepEscape, Arg: 2 + g.n(3)})
 		g.hit("script:deep-escape")
-	case x < 62: // … attempted by a MarshalToFunc that runs inside a container opened by this script
+	case x < 55: // … attempted by a MarshalToFunc that runs inside a container opened by this script
 		ops = append(ops, Op{Kind: opNestedEscape, Arg: 1 + g.n(3)})
 		g.hit("script:nested-escape")
-	case x < 63: // … blindly: k closing tokens of random kinds, k opening ones, some values
+	case x < 56: // … blindly: k closing tokens of random kinds, k opening ones, some values
 		k := 1 + g.n(3)
 		for i := 0; i < k; i++ {
 			ops = append(ops, Op{Kind: opTok, Arg: []int{tokEndObject, tokEndArray}[g.n(2)]})
@@ -558,6 +577,18 @@ func (g *c02Gen) script() []Op {
 			}
 		}
 		g.hit("script:blind-escape")
+	case x < 67: // a nested MarshalEncode that fails part-way inside containers; the error is swallowed, the containers are completed by hand
+		if g.p(0.3) {
+			ops = append(ops, Op{Kind: opTok, Arg: []int{tokBeginArray, tokBeginObject}[g.n(2)]})
+			if ops[0].Arg == tokBeginObject {
+				ops = append(ops, Op{Kind: opTok, Arg: 12}) // the name "a"
+			}
+		}
+		ops = append(ops, Op{Kind: opFailRecover, Arg: g.n(64), Arg2: g.n(64)})
+		if len(ops) > 1 {
+			ops = append(ops, Op{Kind: opCloseOwn})
+		}
+		g.hit("script:fail-part-way-then-complete-by-hand")
 	case x < 72: // WriteValue with raw bytes
 		b, cls := g.jsonBytes()
 		ops = append(ops, Op{Kind: opVal, Raw: b})
@@ -595,14 +626,21 @@ func (g *c02Gen) newBeh(text bool) *Beh {
 	cs.userCode = true
 	if text {
 		b.Bytes = []byte(c02Texts[g.n(len(c02Texts))])
+		if g.calm() {
+			b.Bytes = []byte(c02Texts[g.n(7)])
+		}
 	} else {
 		var cls string
 		b.Bytes, cls = g.jsonBytes()
 		g.hit("bytes:" + cls)
 	}
-	b.NilOut = g.p(0.04)
+	b.NilOut = g.p(0.04) && !g.calm()
 	b.Script = g.script()
-	switch x := g.n(100); {
+	x := g.n(100)
+	if g.calm() {
+		x = 0
+	}
+	switch {
 	case x < 62:
 		b.Ret = retNil
 	case x < 72:
@@ -636,7 +674,7 @@ var (
 		reflect.TypeFor[uintptr](), reflect.TypeFor[float32](), reflect.TypeFor[float64](), reflect.TypeFor[string]()}
 	c02UserTypes = []reflect.Type{reflect.TypeFor[UJ](), reflect.TypeFor[UJP](), reflect.TypeFor[UTo](), reflect.TypeFor[UToP](), reflect.TypeFor[UT](), reflect.TypeFor[UTP](),
 		reflect.TypeFor[UA](), reflect.TypeFor[UAT](), reflect.TypeFor[UJT](), reflect.TypeFor[UAll](), reflect.TypeFor[UZ](), reflect.TypeFor[UStr](), reflect.TypeFor[UIntTo]()}
-	c02Compiled = []reflect.Type{reflect.TypeFor[CEmbed](), reflect.TypeFor[CEmbedMap](), reflect.TypeFor[CEmbedPtrRaw](), reflect.TypeFor[CTextKeyed](), reflect.TypeFor[CRecursive]()}
+	c02Compiled = []reflect.Type{reflect.TypeFor[CTimes](), reflect.TypeFor[CTimesCustom](), reflect.TypeFor[CEmbed](), reflect.TypeFor[CEmbedMap](), reflect.TypeFor[CEmbedPtrRaw](), reflect.TypeFor[CTextKeyed](), reflect.TypeFor[CRecursive]()}
 	c02Ifaces   = []reflect.Type{reflect.TypeFor[any](), reflect.TypeFor[any](), reflect.TypeFor[IfaceJ](), reflect.TypeFor[IfaceT](), reflect.TypeFor[IfaceTo]()}
 	c02KeyTypes = []reflect.Type{reflect.TypeFor[string](), reflect.TypeFor[string](), reflect.TypeFor[int](), reflect.TypeFor[int8](), reflect.TypeFor[int64](), reflect.TypeFor[uint](),
 		reflect.TypeFor[uint8](), reflect.TypeFor[uint64](), reflect.TypeFor[float32](), reflect.TypeFor[float64](), reflect.TypeFor[bool](), reflect.TypeFor[UT](), reflect.TypeFor[UStr](),
@@ -716,10 +754,47 @@ func (g *c02Gen) genTag(t reflect.Type, canEmbed bool) (tag string, embedded boo
 			sb.WriteString("," + o.s)
 		}
 	}
-	if g.p(0.2) {
+	base := t
+	for base.Kind() == reflect.Pointer {
+		base = base.Elem()
+	}
+	switch {
+	case base == c02TimeType && g.p(0.7):
+		sb.WriteString(",format:" + c02TimeFormats[g.n(len(c02TimeFormats))])
+	case base == c02DurType && g.p(0.7):
+		sb.WriteString(",format:" + c02DurFormats[g.n(len(c02DurFormats))])
+	case (base.Kind() == reflect.Slice || base.Kind() == reflect.Array) && base.Elem().Kind() == reflect.Uint8 && g.p(0.6):
+		sb.WriteString(",format:" + c02BytesFormats[g.n(len(c02BytesFormats))])
+	case (base.Kind() == reflect.Float32 || base.Kind() == reflect.Float64) && g.p(0.4):
+		sb.WriteString(",format:nonfinite")
+	case (base.Kind() == reflect.Map || base.Kind() == reflect.Slice) && g.p(0.3):
+		sb.WriteString(",format:" + []string{"emitnull", "emitempty"}[g.n(2)])
+	case g.p(0.12):
 		sb.WriteString(",format:" + c02Formats[g.n(len(c02Formats))])
 	}
 	return sb.String(), false
+}
+
+// c02HasFormatTag: does some struct reachable from t carry a `format` tag option?
+func c02HasFormatTag(t reflect.Type, seen map[reflect.Type]bool) bool {
+	if seen[t] {
+		return false
+	}
+	seen[t] = true
+	switch t.Kind() {
+	case reflect.Pointer, reflect.Slice, reflect.Array:
+		return c02HasFormatTag(t.Elem(), seen)
+	case reflect.Map:
+		return c02HasFormatTag(t.Key(), seen) || c02HasFormatTag(t.Elem(), seen)
+	case reflect.Struct:
+		for i := 0; i < t.NumField(); i++ {
+			f := t.Field(i)
+			if strings.Contains(f.Tag.Get("json"), "format:") || c02HasFormatTag(f.Type, seen) {
+				return true
+			}
+		}
+	}
+	return false
 }
 
 func c02CanEmbed(t reflect.Type) bool {
@@ -746,7 +821,11 @@ func (g *c02Gen) genStruct(d int) (t reflect.Type) {
 	fields := make([]reflect.StructField, 0, n)
 	for i := 0; i < n; i++ {
 		var ft reflect.Type
-		if x := g.n(100); x < 12 { // favour fallback-capable types inside structs
+		if x := g.n(100); x >= 88 { // values that are rendered as text/number under a `format` tag
+			ft = []reflect.Type{c02TimeType, c02TimeType, c02TimeType, reflect.PointerTo(c02TimeType), c02DurType, c02DurType, c02BytesTyp, reflect.TypeFor[[4]byte](),
+				reflect.TypeFor[float64](), reflect.TypeFor[map[string]time.Time](), reflect.TypeFor[[]time.Time]()}[g.n(11)]
+			g.hit("struct:formatted-leaf-field")
+		} else if x < 12 { // favour fallback-capable types inside structs
 			ft = []reflect.Type{c02RawType, reflect.PointerTo(c02RawType), reflect.TypeFor[map[string]any](), reflect.TypeFor[map[string]jsontext.Value](),
 				reflect.TypeFor[map[string]UJ](), reflect.TypeFor[map[UStr]int](), reflect.TypeFor[map[string]UTo](), reflect.TypeFor[*map[string]int]()}[g.n(8)]
 		} else {
@@ -775,9 +854,17 @@ func (g *c02Gen) genStruct(d int) (t reflect.Type) {
 	return reflect.StructOf(fields)
 }
 
-func (g *c02Gen) str() string { return c02Strings[g.n(len(c02Strings))] }
+func (g *c02Gen) str() string {
+	if g.calm() {
+		return c02Strings[g.n(11)] // the well-formed ones
+	}
+	return c02Strings[g.n(len(c02Strings))]
+}
 
 func (g *c02Gen) float() float64 {
+	if g.calm() {
+		return []float64{0, 1.5, -123456789.125, 1e21, 1e-7}[g.n(5)]
+	}
 	switch g.n(14) {
 	case 0:
 		return 0
@@ -819,10 +906,22 @@ func (g *c02Gen) rawObject() jsontext.Value { // for fallback members: mostly ob
 	objs := []string{`{}`, `{"a":1}`, `{"e1":1,"u1":2}`, `{"a":1,"a":2}`, `{"a":1}`, "{\"\xff\":1,\"\xfe\":2}", `{"\ud800":1,"\udc00":2}`, `{"F0":1,"f0":2,"A":3}`,
 		` { "k" : [ 1 , { "k" : 1 , "k" : 2 } ] } `, `{"x":1} x`, `{"x":`, `[]`, `null`, ``, ` `, `{"a":"\xff"}`, `{"dflt":{"dflt":1}}`, `{"b":1,"日本":2,"x y":3,"<&>":4}`, `{"":1,"-":2}`}
 	s := objs[g.n(len(objs))]
+	if g.calm() {
+		s = []string{`{}`, `{"a":1}`, `{"e1":1,"u1":2}`, `{"b":1,"日本":2,"x y":3,"<&>":4}`, `{"":1,"-":2}`, ` { "k" : [ 1 , { "k" : 1 } ] } `}[g.n(6)]
+	}
 	return jsontext.Value(s)
 }
 
 func (g *c02Gen) timeValue() time.Time {
+	if g.calm() {
+		return time.Date(2026, 9, 23, 17, 2, 3, 450000000, time.FixedZone("CEST", 2*3600))
+	}
+	if g.p(0.45) { // a Location whose abbreviation is adversarial text (printed by the layouts that contain MST)
+		name := c02ZoneNames[g.n(len(c02ZoneNames))]
+		g.hit("time:adversarial-zone-name")
+		off := []int{0, 3600, -7 * 3600, 3601, 14*3600 + 59*60, -1}[g.n(6)]
+		return time.Date(2021+g.n(3), time.Month(1+g.n(12)), 1+g.n(28), g.n(24), g.n(60), g.n(60), g.n(2)*123456789, time.FixedZone(name, off))
+	}
 	switch g.n(8) {
 	case 0:
 		return time.Time{}
@@ -883,6 +982,9 @@ func (g *c02Gen) genValue(t reflect.Type, d int) reflect.Value {
 	case reflect.TypeFor[UStr]():
 		g.kind("user:string-kind-MarshalText")
 		g.cs.userCode = true
+		if g.calm() {
+			return reflect.ValueOf(UStr([]string{"plain", "a", "日本", "Rq\"\\\n"}[g.n(4)]))
+		}
 		return reflect.ValueOf(UStr([]string{"", "plain", "Eboom", "R\xff", "Rq\"\\\n", "Rdup", "dup", "a", "R", "日本"}[g.n(10)]))
 	case reflect.TypeFor[UIntTo]():
 		g.kind("user:int-kind-MarshalJSONTo")
@@ -896,7 +998,7 @@ func (g *c02Gen) genValue(t reflect.Type, d int) reflect.Value {
 		return reflect.ValueOf(g.timeValue())
 	case c02DurType:
 		g.kind("time.Duration")
-		return reflect.ValueOf([]time.Duration{0, 1, -1, math.MinInt64, math.MaxInt64, 90 * time.Minute, -1500 * time.Millisecond, time.Duration(g.r.Int64())}[g.n(8)])
+		return reflect.ValueOf([]time.Duration{0, 1, -1, math.MinInt64, math.MaxInt64, 90 * time.Minute, -1500 * time.Millisecond, time.Duration(g.r.Int64()), 1500, -999999, 25*time.Hour + 1}[g.n(11)])
 	case reflect.TypeFor[CEmbed]():
 		g.kind("compiled:CEmbed")
 		c := CEmbed{EmbInner: EmbInner{g.n(3), g.str()}, Value: g.rawObject(), X: UTo{g.mayNilBeh(false)}}
@@ -904,6 +1006,19 @@ func (g *c02Gen) genValue(t reflect.Type, d int) reflect.Value {
 			c.embUnexp = &embUnexp{g.n(3), UJ{g.mayNilBeh(false)}}
 		}
 		return reflect.ValueOf(c)
+	case reflect.TypeFor[CTimes]():
+		g.kind("compiled:CTimes")
+		t := g.timeValue()
+		d := time.Duration(g.r.Int64N(1e13)) - 5e12
+		var h time.Time
+		if g.p(0.3) {
+			h = g.timeValue()
+		}
+		return reflect.ValueOf(CTimes{t, t, t, t, &t, h, d, d})
+	case reflect.TypeFor[CTimesCustom]():
+		g.kind("compiled:CTimesCustom")
+		t := g.timeValue()
+		return reflect.ValueOf(CTimesCustom{t, t, map[string]time.Time{"t": t}, map[time.Time]time.Time{t: t}})
 	case reflect.TypeFor[CEmbedMap]():
 		g.kind("compiled:CEmbedMap")
 		c := CEmbedMap{To: UTo{g.mayNilBeh(false)}}
@@ -1174,6 +1289,9 @@ func (g *c02Gen) genKey(t reflect.Type) reflect.Value {
 	case reflect.Float32, reflect.Float64:
 		v := reflect.New(t).Elem()
 		v.SetFloat([]float64{0, math.Copysign(0, -1), math.NaN(), math.NaN(), math.Inf(1), math.Inf(-1), 1.5, 1e21, -1e-7, 3}[g.n(10)])
+		if g.calm() {
+			v.SetFloat([]float64{0, 1.5, 1e21, -1e-7, 3}[g.n(5)])
+		}
 		return v
 	case reflect.Interface:
 		if t == reflect.TypeFor[IfaceT]() {
@@ -1338,6 +1456,30 @@ func (g *c02Gen) genOpts() {
 		cs.optNames = append(cs.optNames, "WithMarshalers")
 		g.hit("opt:WithMarshalers")
 	}
+	if cs.userCode || cs.kinds["jsontext.Value"] || cs.kinds["fallback-raw"] {
+		// options that change how RAW values are re-encoded matter most where raw values occur
+		if g.p(0.35) {
+			o := []c02Opt{
+				{"PreserveRawStrings=true", func(*c02Gen) jsonv2.Options { return jsontext.PreserveRawStrings(true) }},
+				{"PreserveRawStrings=true", func(*c02Gen) jsonv2.Options { return jsontext.PreserveRawStrings(true) }},
+				{"CanonicalizeRawInts=true", func(*c02Gen) jsonv2.Options { return jsontext.CanonicalizeRawInts(true) }},
+				{"CanonicalizeRawFloats=true", func(*c02Gen) jsonv2.Options { return jsontext.CanonicalizeRawFloats(true) }},
+				{"ReorderRawObjects=true", func(*c02Gen) jsonv2.Options { return jsontext.ReorderRawObjects(true) }},
+				{"EscapeForHTML=true", func(*c02Gen) jsonv2.Options { return jsontext.EscapeForHTML(true) }},
+				{"EscapeForJS=true", func(*c02Gen) jsonv2.Options { return jsontext.EscapeForJS(true) }},
+			}[g.n(7)]
+			cs.opts = append(cs.opts, o.mk(g))
+			cs.optNames = append(cs.optNames, o.name)
+			g.hit("opt:" + o.name)
+			g.hit("opt:raw-affecting-option-with-raw-content")
+		}
+	}
+	if (c02HasFormatTag(cs.typ, map[reflect.Type]bool{}) && g.p(0.85)) || g.p(0.05) { // `format` tags are honoured only with this option
+		i := g.n(len(cs.opts) + 1)
+		cs.opts = append(cs.opts[:i:i], append([]jsonv2.Options{jsonv2.ExperimentalSupportFormatTag(true)}, cs.opts[i:]...)...)
+		cs.optNames = append(cs.optNames, "ExperimentalSupportFormatTag=true")
+		g.hit("opt:ExperimentalSupportFormatTag=true")
+	}
 	if len(cs.opts) > 1 && g.p(0.3) { // nest them
 		cs.opts = []jsonv2.Options{jsonv2.JoinOptions(cs.opts...)}
 	}
@@ -1395,6 +1537,7 @@ func (cs *c02Case) begin() {
 // runAll calls every entry point.
 func (cs *c02Case) runAll(r *rand.Rand) (runs []c02Run) {
 	dup, bad := c02Effective(cs.opts...)
+	cs.effDup = dup
 	do := func(ep string, want, wantLen int, d, b bool, f func() ([]byte, error)) {
 		cs.begin()
 		run := c02Run{ep: ep, want: want, wantLen: wantLen}
@@ -1538,7 +1681,14 @@ func c02MakeCase(seed, idx uint64, group uint64, hits map[string]int64) *c02Case
 	tr := rand.New(rand.NewPCG(seed^0xC02, idx/group))
 	tg := &c02Gen{r: tr, hits: map[string]int64{}}
 	typ := tg.genType(3)
-	g := &c02Gen{r: rand.New(rand.NewPCG(seed^0xC02C02, idx)), hits: hits}
+	g := &c02Gen{r: rand.New(rand.NewPCG(seed^0xC02C02, idx)), hits: hits, adv: 1}
+	switch x := g.n(20); {
+	case x < 9:
+		g.adv = 0.3
+	case x < 13:
+		g.adv = 0.1
+	}
+	hits[fmt.Sprintf("adversity:%.1f", g.adv)]++
 	if idx%group == 0 {
 		for k, v := range tg.hits {
 			hits[k] += v
@@ -1575,7 +1725,7 @@ func runC02(c *Ctx) {
 		pprof.StartCPUProfile(f)
 		defer pprof.StopCPUProfile()
 	}
-	total := uint64(c.N(20_000, 2_000_000))
+	total := uint64(c.N(60_000, 2_000_000))
 	group := uint64(c.N(8, 32))
 	workers := min(runtime.GOMAXPROCS(0), c.N(4, 16))
 	var only []uint64
@@ -1802,6 +1952,16 @@ func c02Judge(c *Ctx, cs *c02Case, runs []c02Run, hits map[string]int64, pend *[
 				d["panic"] = fmt.Sprint(run.pan)
 				c.Violate("panic-appendtext-contract", run.ep, run.out, d)
 				hits["result:panic-appendtext-contract"]++
+				continue
+			}
+			if strings.Contains(run.stack, "objectNamespaceStack") && run.tr.RelaxDup && run.tr.Swallowed > 0 && !cs.effDup {
+				// same root cause, second route: a nested MarshalEncode(…, AllowDuplicateNames(true)) of the user code failed and
+				// left objects open that were begun without a namespace; the call's options are restored, the user code swallows
+				// the error and finishes those objects by hand: name → Namespaces.Last(), `}` → Namespaces.pop() on an empty stack
+				d := c02Describe(cs, run)
+				d["panic"] = fmt.Sprint(run.pan)
+				c.Violate("panic-namespace-after-option-change", run.ep, run.out, d)
+				hits["result:panic-namespace-after-option-change"]++
 				continue
 			}
 			if run.encDup && !run.callDup && strings.Contains(run.stack, "objectNamespaceStack.Last") {
